@@ -153,3 +153,10 @@ pub proof fn lemma_pre(sv0: &SourceView, sm: &SourceMap, idx: int, i: int, it: &
 {
 }
 
+
+/// C04's statement of which token a position resolves to, by index: a token with the greatest generated position not after the position, the first one when the position is hit exactly
+pub open spec fn looked_up_at(sm: &SourceMap, line: u32, col: u32, p: int) -> bool {
+    0 <= p < sm.tokens@.len() && tle(tkey(sm.tokens@[p]), (line, col))
+    && (forall|i: int| 0 <= i < sm.tokens@.len() && tle(#[trigger] tkey(sm.tokens@[i]), (line, col)) ==> tle(tkey(sm.tokens@[i]), tkey(sm.tokens@[p])))
+    && (tkey(sm.tokens@[p]) == (line, col) ==> forall|i: int| 0 <= i < p ==> #[trigger] tkey(sm.tokens@[i]) != (line, col))
+}
